@@ -19,7 +19,9 @@ import traceback
 
 HERE = os.path.dirname(os.path.abspath(__file__))
 VERIF = os.path.dirname(HERE)
-EVIDENCE_DIR = os.path.join(VERIF, 'evidence')
+# evaluation runs on a deliberately broken tree (harness/seeded_eval.py) write their evidence elsewhere, so that the
+# committed evidence always comes from runs of the registered commands on /repo as it is
+EVIDENCE_DIR = os.environ.get('VERIF_EVIDENCE_DIR') or os.path.join(VERIF, 'evidence')
 REPLAY_DIR = os.path.join(VERIF, 'replays')
 KNOWN = os.path.join(VERIF, 'known_findings.json')
 
